@@ -137,17 +137,21 @@ def check(prog, rep, tier):
         cp = prog.method(ctx, "_check_if_present")
         okp = True
         fpp = ("p", "fingerprint")
+        from .C03 import _same_bucket, _search_facts
+        tabf = ("f", SELF, TABLE, 0)
+        B = {"idx_1": ("sub", tabf, ("p", "idx_1"), 0), "idx_2": ("sub", tabf, ("p", "idx_2"), 0)}
         for p in cpaths(prog, ctx, cp):
             if p.exit[0] != "return":
                 continue
             seen_b = {}
+            searched_form = False
             for c in p.conds:
                 a = strip_epochs(c.atom)
                 which = None
                 if a[0] == "cmp" and a[1] in ("in", "notin") and a[2] == fpp:
                     rhs = a[3]
                     for k in ("idx_1", "idx_2"):
-                        bk = ("sub", ("f", SELF, TABLE, 0), ("p", k), 0)
+                        bk = B[k]
                         full = rhs == bk or (rhs[0] == "comp" and len(rhs[3]) == 1 and not rhs[3][0][3] and strip_epochs(rhs[3][0][2]) == bk
                                              and strip_epochs(rhs[2])[0] in ("sub", "f", "it"))
                         if full:
@@ -157,22 +161,35 @@ def check(prog, rep, tier):
                     elt = comp[2]
                     dom = strip_epochs(comp[3][0][2])
                     for k in ("idx_1", "idx_2"):
-                        bk = ("sub", ("f", SELF, TABLE, 0), ("p", k), 0)
                         member = elt[0] == "cmp" and ((elt[1] == "in" and elt[2] == fpp and elt[3][0] == "it") or (elt[1] == "==" and fpp in (elt[2], elt[3])))
-                        if dom == bk and member:
+                        if dom == B[k] and member:
                             which = k
                     if which is not None:
                         seen_b[which] = c.truth
                         continue
                 if which is None:
-                    rep.bad("C15.no-duplicate", f"{ctx}._check_if_present", f"decision {nshow(a)}",
-                            f"the presence test also branches on {nshow(a)}: it may skip a candidate bucket and report a stored fingerprint as absent, so add stores it twice", cp.where(c.node))
+                    searched_form = True  # a written-out walk (loops, early returns): judged through the search facts below
+                    continue
+                seen_b[which] = ((a[1] == "in") == c.truth)
+            rv = strip_epochs(p.exit[1])
+            if searched_form:
+                hit, walked = _search_facts(p, fpp, set(B.values()))
+                extra = [c for c in p.conds if strip_epochs(c.atom)[0] not in ("loop0",) and not (strip_epochs(c.atom)[0] == "cmp" and strip_epochs(c.atom)[1] in ("in", "notin"))
+                         and not (strip_epochs(c.atom)[0] == "cmp" and strip_epochs(c.atom)[1] in ("==", "!=") and {strip_epochs(c.atom)[2], strip_epochs(c.atom)[3]} == {("p", "idx_1"), ("p", "idx_2")})
+                         and not (strip_epochs(c.atom)[0] == "call" and strip_epochs(c.atom)[1] == ("g", "any"))]
+                if extra:
+                    rep.bad("C15.no-duplicate", f"{ctx}._check_if_present", f"decision {nshow(extra[0].atom)}",
+                            f"the presence test also branches on {nshow(extra[0].atom)}: it may skip a candidate bucket and report a stored fingerprint as absent, so add stores it twice", cp.where(extra[0].node))
                     okp = False
                     break
-                seen_b[which] = ((a[1] == "in") == c.truth)
-            if not okp:
-                break
-            rv = strip_epochs(p.exit[1])
+                if hit is not None:
+                    seen_b[[k for k, v in B.items() if v == hit[2]][0]] = True
+                for k, v in B.items():
+                    if v in walked and seen_b.get(k) is not True:
+                        seen_b[k] = False
+                if walked and _same_bucket(p, ("p", "idx_1"), ("p", "idx_2")):
+                    seen_b.setdefault("idx_1", False)
+                    seen_b.setdefault("idx_2", False)
             if rv == C(None) and not (seen_b.get("idx_1") is False and seen_b.get("idx_2") is False):
                 rep.bad("C15.no-duplicate", f"{ctx}._check_if_present", f"absent after looking at {sorted(seen_b)}",
                         f"'not present' is concluded after examining only {sorted(k for k in seen_b)}: a fingerprint stored in the other candidate bucket is inserted again", cp.where())
